@@ -7,6 +7,8 @@ structure D where
   s : PState := {}
   sp : Spec := {}
   splits : List Bytes := []
+  /-- a `reset` has been executed (ops before the first reset are refused, like on the implementation side) -/
+  started : Bool := false
   /-- a flush function returned an error that no call of Flush / FlushWait has returned to the caller yet -/
   unreported : Bool := false
   /-- result of the last commit/rollback: regions that got a ResolveLock, and whether it was a commit -/
@@ -107,7 +109,7 @@ def doCommit (d : D) (mem : Nat) (l1 l2 : Completion) : D × String :=
 def doRollback (d : D) (l : Completion) : D × String :=
   let (d1, _) := apply d (.flushWait l)
   -- Rollback ignores the result of FlushWait; the transaction is over, nothing can be lost any more
-  let d1 := { d1 with unreported := false, s := { d1.s with closed := true } }
+  let d1 := { d1 with unreported := false, s := { d1.s with ttl := if d1.s.ttl == .running then .closed else d1.s.ttl } }
   match resolveRegions d1.s d1.splits false with
   | some rs =>
     ({ d1 with resolved := some (rs, false) },
@@ -124,19 +126,22 @@ def chkCovered (d : D) : String :=
     | some _ =>
       let bad := (d.s.lockKeys.filter (fun k => !keyResolved d.s rs commit k)).eraseDups
       let sorted := (bad.map fun k => (k, ([] : Bytes))).foldr insertSorted []
-      s!"FAIL unresolved {",".intercalate (sorted.map fun e => Bytes.toHex e.1)}"
+      -- the one failure the range logic is suspected of (DESIGN S7): exactly the range end key is left out
+      if sorted.map (·.1) == [d.s.pEnd] then s!"FAIL unresolved-range-end {Bytes.toHex d.s.pEnd}"
+      else s!"FAIL unresolved {",".intercalate (sorted.map fun e => Bytes.toHex e.1)}"
 
 def step (d : D) (line : String) : D × String :=
+  if !d.started && !(line.startsWith "reset") then (d, "bad-op") else
   match words line with
   | "reset" :: mode :: mk :: ms :: fs :: sp =>
     match mk.toNat?, ms.toNat?, fs.toNat?, parseKeys sp with
     | some a, some b, some c, some splits =>
       if mode == "bare" || mode == "txn" then
-        ({ s := init { minKeys := a, minSize := b, forceSize := c, layer := mode == "txn" }, splits := splits }, "ok")
+        ({ s := init { minKeys := a, minSize := b, forceSize := c, layer := mode == "txn" }, splits := splits, started := true }, "ok")
       else (d, "bad-op")
     | _, _, _, _ => (d, "bad-op")
   | ["reset-default", mode] =>
-    if mode == "bare" || mode == "txn" then ({ s := init { layer := mode == "txn" } }, "ok") else (d, "bad-op")
+    if mode == "bare" || mode == "txn" then ({ s := init { layer := mode == "txn" }, started := true }, "ok") else (d, "bad-op")
   | ["set", k, v] =>
     match parseHex k, parseHex v with
     | some k, some v => let (d, o) := apply d (.set k v); (d, outStr o)
